@@ -1,6 +1,6 @@
 HOOK_COMMITS = []
 _PENDING = "check not built yet in this round (planned, see DESIGN.md section 9); not a statement that the technique cannot apply"
-NOT_APPLICABLE = {p: _PENDING for p in ["C03","C04","C05","C06","C07","C08","C09","C10","C11","C12","C16","C19"]}
+NOT_APPLICABLE = {p: _PENDING for p in ["C03","C04","C05","C06","C07","C08","C09","C10","C11","C12","C16"]}
 TEXT = {
  "C17": {
   "text": "Lean mirror of integer.h / dyadic_rational.h / rational.h; theorems for every modulus m>=2 and every operand state that each "
@@ -86,5 +86,17 @@ TEXT = {
   "design_ref": "5.18",
   "note": "the recursive layout (coefficient_order) is modelled only through its traversal and a layout-in-order predicate; uniqueness of the canonical form is not yet proved, so 'eq iff same denotation' rests on canonical-form comparison",
   "technique": "Lean 4 invariance theorems + hash mirror + history-based correspondence",
+ },
+ "C19": {
+  "text": "Three clauses. (a) Reference counting: protocol model of rings/contexts and their holders with the invariant 'counter = number "
+          "of live holders (directly or through a context)' PROVED in Lean for every history, hence an object is freed exactly when its "
+          "last holder goes; the C ref_count fields are compared with the model after every step of generated histories. (b) Output/"
+          "alias independence: the models of C17/C15/C01 are functions of the inputs only, and every scalar, interval and polynomial "
+          "operation is replayed with pre-used destinations of other shapes and with destinations aliasing an input; a violation class "
+          "is attributed to C19 only if it does not also occur with fresh outputs. (c) Memory safety: all these runs and the set/container "
+          "histories execute under ASan+UBSan+LSan with a per-case watchdog; any report, crash, hang or leak is a violation.",
+  "design_ref": "5.19",
+  "note": "clause (c) is runtime monitoring on generated inputs, not proof (no executable Lean model can exhibit out-of-bounds access); variable_db/variable_order counters are opaque and observed only via sanitizers",
+  "technique": "Lean 4 invariant proof (refcount protocol) + correspondence with aliased/pre-used outputs + sanitizer monitoring",
  },
 }
